@@ -16,7 +16,8 @@ CLAIMED = {
         text="Static, state-independent: the set of exception types that may propagate out of each of the 137 "
              "extern \"C\" definitions is computed as a least fixed point over the whole-library call graph "
              "(try/catch absorption, frozen table of throwing external callees) and must be empty -- hence no "
-             "call history or model state can make an exception escape. Structural rules decide the bounded "
+             "call history or model state can make an exception escape; no noexcept function that an exception can "
+             "reach lies in a wrapper's call closure (std::terminate). Structural rules decide the bounded "
              "string copy incl. len = 0, same-stem unmodified forwarding of every calculation wrapper (bit "
              "identity by construction), error-code mapping and handler order, enum mirrors, free = delete. "
              "Setter/getter round trip is decided as equality of the written and read access paths.",
@@ -32,7 +33,8 @@ CLAIMED["C14"] = dict(
               "loop-idiom classification, constant index ranges)",
     text="Decides the structural totality and memory-safety clauses: only gm2calc::Error reaches main's "
          "handler and nothing escapes main or a noexcept function; every exit status is in {0,1}; every "
-         "failure exit is preceded by a diagnostic; stdout is touched only by the writers; every "
+         "failure exit is preceded by a diagnostic that runs unconditionally under the failure condition; stdout "
+         "is touched only by the writers; every "
          "float->int conversion and every input-derived index is range-tested first; ~750 constant indices "
          "lie within the fixed Eigen dimensions; all ~190 loops follow a bounded idiom and the call graph has "
          "no recursion; raw new/delete only in the C constructors/free. These hold for every input because "
@@ -49,7 +51,8 @@ CLAIMED["C16"] = dict(
     text="Decides the path/shape clauses: every EInvalidInput/EPhysicalProblem throw of the model classes is "
          "control-dependent on the force flag being off, and its forced branch warns or records a problem "
          "(never silent); each of the 30 documented rejection conditions has a throw site guarded by exactly "
-         "that comparison with the documented class, in a function the constructors/calculators call on every "
+         "that comparison (conjuncts are split; a further condition that narrows the documented one is reported) "
+         "with the documented class, in a function the constructors/calculators call on every "
          "path; the program's exit status is EXIT_FAILURE after a caught error and equals have_problem() in "
          "the MSSM; the writer runs only after the reader returned; the C error codes map the classes.",
     note=TRUST + "The list of documented conditions is frozen in the checker (rules_c16.DOCUMENTED). Not decided: "
@@ -114,7 +117,8 @@ CLAIMED["C13"] = dict(
          "matched against the README/example comments; sibling readers of one block agree; exactly HMIX, AU, "
          "AD, AE, MSOFT are read at the model scale (absolute tolerance 0.01) after the scale was fixed from the "
          "last HMIX block; block lookup always goes through SLHAea's case-insensitive find over all blocks of a "
-         "name; unknown keys write nothing; configuration fields only through the validating readers with the "
+         "name; unknown keys write nothing; the matrix/vector block readers write their output only entry by entry from the "
+         "data lines (an entry a block does not name keeps the value of earlier blocks); configuration fields only through the validating readers with the "
          "README's ranges. A key swapped between two generations or a PDG code mapped to the wrong mass is "
          "invisible to tests that use symmetric points; here it is a table mismatch.",
     note=TRUST + "specs/slha_keys.py is the independent table (each row's keyword is checked against the "
@@ -132,7 +136,9 @@ CLAIMED["C05"] = dict(
          "after the fits inside convert_to_onshell; a non-finite fit result restores the saved parameter; the "
          "bino / right-smuon indices are re-derived after each recomputation of their mixing matrix before use; "
          "ml2(2,2) from the sneutrino pole mass is the exact algebraic inverse of the tree-level relation; the "
-         "default SM constants are never read outside constructors. A slip in any of these yields a silently "
+         "default SM constants are never read outside constructors; in convert_Mu_M1_M2 pole-multiplet indices "
+         "subscript only pole arrays and tree-level indices only the model's arrays (incl. the argument of the "
+         "convergence measure). A slip in any of these yields a silently "
          "wrong fit only on rare inputs (level crossings, stalled iterations, MZ different from the default).",
     note=TRUST + "Not decided: that the fitted spectrum numerically reproduces the pole masses within the goal, "
          "and parameter recovery from perturbed guesses (conditioning).",
@@ -165,7 +171,8 @@ CLAIMED["C20"] = dict(
          "electroweak quantities satisfy their defining relations as identities of the getter terms; the "
          "running-mass routines are applied under exactly running_couplings && scale > 0 to the third "
          "generation and are called nowhere else; a failed Lambda_QCD bracket is caught, warned about and "
-         "leaves the default.",
+         "leaves the default; the running-mass code keeps no writable static storage (its results are functions "
+         "of the arguments only, a precondition of composable running).",
     note=TRUST + "Not decided: positivity, monotonicity, boundary values and composition of the running masses "
          "(numerical); floating-point unitarity to 1e-14 (the algebraic formula is exact).",
     ref="3 C20")
@@ -201,7 +208,9 @@ CLAIMED["C08"] = dict(
          "mass-basis constructor computes, these matrices are identically R(alpha) diag(mH^2, mh^2) R(alpha)^T, "
          "mA^2 P and mH+^2 P for all inputs (rational identity with sqrt(1+tan^2 beta) and sin^2+cos^2 "
          "reductions), with alpha = atan(tan beta) - asin(sin(beta-alpha)). Goldstones are moved to index 0 by "
-         "MZ/MW after all sectors; the reported sin/cos(beta-alpha) come from the one normalised alpha_h.",
+         "MZ/MW after all sectors; the reported sin/cos(beta-alpha) come from the one normalised alpha_h, which is asin(ZH(1,1)) shifted by "
+         "-+pi exactly when beta - alpha_h leaves [-pi/2, pi/2] (case analysis of the folded getter); the CKM "
+         "matrix enters the up-type Yukawa matrices only through its adjoint.",
     note=TRUST + "The 2HDM potential (arXiv:2110.13238 Eq.(1)) is written in rules_c08.spec. Not decided: the value "
          "of alpha_h read back from the numerical eigenvector (the property text records a defect there away "
          "from alignment: it depends on the eigen-solver's sign convention), SM fermion masses / CKM through "
@@ -268,7 +277,8 @@ CLAIMED["C11"] = dict(
          "a Kaellen function, ...) in 72 folded sites, the path to the division contains a shift, an "
          "is_equal_rel/|1 - a/b| < eps branch or a product of closeness tests whose exclusion is shown by "
          "substituting the solution of factor = 0; guard tolerances lie in [1e-10, 1e-4] (shifts) / >= 1e-10 "
-         "(branches), exact comparisons do not count; argument relations used by guards (xu/yu = xd/yd) hold "
+         "(branches), a shift guarding a factor of multiplicity p keeps at least (2^-53/1e-2)^(1/p), exact "
+         "comparisons do not count; argument relations used by guards (xu/yu = xd/yd) hold "
          "as identities at the call sites; caller contracts of the internal helpers (sorted arguments, "
          "lambda^2 > 0) are verified on the call graph; tan(2 alpha), which keeps its pole at MA = MZ, is used "
          "only through its reciprocal (abstract IEEE value of the result: finite).",
